@@ -847,7 +847,7 @@ func (c *Ctx) fieldAddr(base Term, st types.Type, idx int) Term {
 		c.emit(fmt.Sprintf("(declare-fun %s (Int) Int)", inv))
 	}
 	t := app(name, base)
-	if !c.faSeen[t] {
+	if !c.faSeen[t] && !c.hasBound(base) {
 		c.faSeen[t] = true
 		// injectivity via inverse, disjoint ranges via tag, root object; all ground.
 		c.emit(fmt.Sprintf("(assert (= (%s %s) %s))", inv, t, base))
@@ -855,6 +855,19 @@ func (c *Ctx) fieldAddr(base Term, st types.Type, idx int) Term {
 		c.emit(fmt.Sprintf("(assert (= (froot %s) (froot %s)))", t, base))
 	}
 	return t
+}
+
+// hasBound: the term mentions a variable bound by an enclosing quantifier.
+func (c *Ctx) hasBound(t Term) bool {
+	if len(c.bound) == 0 || !strings.Contains(t, "!") {
+		return false
+	}
+	for _, tok := range sexprTokens(t) {
+		if c.bound[tok] {
+			return true
+		}
+	}
+	return false
 }
 
 func isStructLike(t types.Type) bool {
